@@ -683,11 +683,15 @@ EXPLANATION = (
     "witnesses for every while loop with interprocedural 'productive' summaries, provenance of every _retreat target, "
     "dominance of every class-table lookup by a successful match on the same table (forward must-dataflow on a hand-built "
     "CFG, killed by cursor moves), the generator's fall-through branch and preprocess fallbacks, the error family of every "
-    "explicit raise, length-guard dataflow for every constant index into a function builder's args, and the tokenizer's "
-    "exception wrapper. Decides these necessary conditions; None-dereferences, work bounds and recursion depth are not decided."
+    "explicit raise, length-guard dataflow for every constant index into a function builder's args and into every list-typed local / "
+    "attribute of the parser and tokenizer, token-existence dataflow before every forward _advance, bound tests on cursor-relative "
+    "token subscripts, guarded text-to-number conversions, escaped regex interpolation, definite assignment (mypy), single rendering "
+    "of a child per generator handler, and the tokenizer's exception wrapper. Decides these necessary conditions; None-dereferences, "
+    "Literal.to_py on malformed number tokens, general work bounds and recursion depth are not decided."
 )
 ASSUMPTIONS = [
     "parser cursor moves happen only through self._advance/_retreat/_match*/_parse*/_try_parse/_advance_chunk",
-    "reviewed tables (REVIEWED_RAISES, REVIEWED_LOOKUPS, REVIEWED_ARGS, loop axioms) — one symbol + reason each",
+    "reviewed tables (REVIEWED_RAISES, REVIEWED_LOOKUPS, REVIEWED_ARGS, loop axioms; c05_index: REVIEWED, REVIEWED_ADVANCE, REVIEWED_CONVERSIONS, REVIEWED_TOKEN_INDEX, REVIEWED_DOUBLE_RENDER) — one symbol + reason each",
+    "mypy's inferred types select list-typed receivers (C05.i) and statically numeric conversion arguments (C05.k)",
     "exceptions raised by expression-module helpers for API misuse (ValueError in builders/to_py) are value-dependent and not decided",
 ]
